@@ -353,9 +353,11 @@ class _RealFinder:
         except ValueError:
             return False
         line_start = self._get_line_start(last_import)
+        if self.code[line_start] == "\n":
+            line_start += 1
         return (
             self._find_import_end(last_import + 7) >= offset
-            and self._find_word_start(line_start) == last_import
+            and self._find_first_non_space_char(line_start) == last_import
         )
 
     def is_from_statement(self, offset):
